@@ -248,8 +248,10 @@ def escapable(ctx):
         for q, fn in mod.funcs.items():
             for lp in nodes_of_type(fn, ast.While):
                 sleeps = [c for c in calls_in(lp) if call_name(c) in ("time.sleep", "sleep")]
-                if not sleeps:
-                    continue
+                polls_state = any(k in ast.unparse(lp.test) for k in ("_processes", "_pending_work_items", "pending_work_items", "is_alive()", "exitcode", "get_n_children_alive"))
+                body_trivial = all(isinstance(st_, (ast.Expr, ast.Pass)) for st_ in lp.body)
+                if not sleeps and not (polls_state and body_trivial):
+                    continue      # a polling loop = it sleeps, or it spins on worker / work-item state doing nothing else
                 if q == "_process_worker":
                     continue
                 n += 1
@@ -277,7 +279,7 @@ def escapable(ctx):
                 ctx.check(ok, lp, "polling loop `while %s` in %s is escapable when the executor breaks (%s)" % (
                     unparse(t, 70), q, "tests the broken flag" if mentions_broken else "reads a container that terminate_broken empties" if live_containers else "counts live children" if alive_count else "per-process predicate cannot stay false forever"),
                     "polling loop `while %s` in %s cannot be left when a worker dies" % (unparse(t, 100), q))
-    ctx.floor(n, 4, "sleep-polling loops in the loky executor")
+    ctx.floor(n, 2, "polling loops in the loky executor")
 
 
 def worker(ctx):
